@@ -35,12 +35,16 @@ def _src():
     return os.path.realpath(os.path.join(env.repo_src(), "nuspacesim")) + os.sep
 
 
-def _reference(key, cfg, rng_seed, clock):
+OUTNAMES = ("out.fits", "out.fits", "out.fit", "OUT.FITS", "results", "run.fits.v2", "stages.dat")
+
+
+def _reference(key, cfg, rng_seed, clock, outname="out.fits"):
     if key in _REF:
         return _REF[key]
     if len(_REF) > 6:
         _REF.clear()
-    ref = crashsim.reference_run(cfg, rng_seed, clock, _src())
+    ref = crashsim.reference_run(cfg, rng_seed, clock, _src(), outname)
+    ref["outname"] = outname
     ref["problems"] = _reference_oracle(ref)
     _REF[key] = ref
     return ref
@@ -97,8 +101,10 @@ def scn_case(ctx):
     ch = ctx.ch
     cfg, desc = draw_config(ch, max_events=40)
     clock = float(ch.draw(4 * 365 * 86400, "clock"))
+    outname = OUTNAMES[ch.draw(len(OUTNAMES), "output_name")]  # the name is the user's: not every name ends in .fits
+    desc["output_name"] = outname
     key = tuple(ch.values())
-    ref = _reference(key, cfg, desc["rng_seed"], clock)
+    ref = _reference(key, cfg, desc["rng_seed"], clock, outname)
     K = ref["K"]
     ctx.describe.update(config=desc, clock=clock, boundaries=K, rows=ref["rows"], ref_steps=ref["steps"])
     ctx.log(f"config {desc} clock={clock:.0f}")
@@ -113,7 +119,7 @@ def scn_case(ctx):
     ctx.probes[f"boundaries_{K}"] += 1
     for check, msg, sig in ref["problems"]:
         ctx.violate(check, msg, sig)
-    if [x for x in ref["listing"] if x not in ("out.fits", "side")]:
+    if [x for x in ref["listing"] if x not in (outname, "side")]:
         ctx.probes["other_files_next_to_output"] += 1
     kind = KINDS[ch.draw(len(KINDS), "case_kind")]
     ctx.describe["case"] = kind
@@ -137,7 +143,7 @@ def scn_case(ctx):
         return
     if kind.startswith("staging-off"):
         named = kind.endswith("-named")
-        fr = crashsim.fault_run(cfg, desc["rng_seed"], clock, src, None, write_stages=False, give_output=named)
+        fr = crashsim.fault_run(cfg, desc["rng_seed"], clock, src, None, write_stages=False, give_output=named, outname=outname)
         rep = fr["report"]
         ctx.steps += rep.get("steps", 0)
         ctx.log(f"case {kind} status={rep['status'][:40]} listing={fr['listing']} audit={len(rep.get('audit', []))}")
@@ -192,7 +198,7 @@ def scn_case(ctx):
     else:
         fault = {"kind": fkind, "step": None, "fits_k": fits_k, "fits_line": fits_line}
     ctx.describe.update(where=where, step=step, target=target)
-    fr = crashsim.fault_run(cfg, desc["rng_seed"], clock, src, fault, trace_fits=trace_fits)
+    fr = crashsim.fault_run(cfg, desc["rng_seed"], clock, src, fault, trace_fits=trace_fits, outname=outname)
     rep = fr["report"]
     fired = rep.get("fired") if rep["status"] != "died" else rep
     ctx.steps += (fired or rep).get("step", rep.get("steps", 0)) if isinstance(fired or rep, dict) else 0
@@ -251,7 +257,7 @@ def scn_case(ctx):
             f"{fkind}:{'in' if in_stage else 'between'}",
             detail={"k": k, "K": K, "site": fired["site"], "step": step},
         )
-    stray = [x for x in fr["listing"] if x not in ("out.fits",)]
+    stray = [x for x in fr["listing"] if x not in (outname,)]
     if stray:
         # e.g. the scratch file of a tmp+rename writer killed between write and rename: the
         # statement is about the output file, which was checked above
@@ -271,11 +277,11 @@ def _ioerr_case(ctx, cfg, desc, clock, ref, torn=False):
         mode = ("raise", "die")[ch.draw(4, "torn_mode") == 3]
         tear = ch.draw(3, "tear_point")  # 0: half; 1: before the last non-blank 80-byte record; 2: at a 512-byte sector boundary
         fr = crashsim.fault_run(cfg, desc["rng_seed"], clock, _src(),
-                                {"kind": "torn", "write_call": j, "mode": mode, "tear": tear, "sector": ch.draw(64, "tear_sector"), "step": None})
+                                {"kind": "torn", "write_call": j, "mode": mode, "tear": tear, "sector": ch.draw(64, "tear_sector"), "step": None}, outname=ref["outname"])
     else:
         j = 1 + ch.draw(max(1, K), "io_write_no")
         mode = "raise"
-        fr = crashsim.fault_run(cfg, desc["rng_seed"], clock, _src(), {"kind": "ioerr", "write_no": j, "step": None})
+        fr = crashsim.fault_run(cfg, desc["rng_seed"], clock, _src(), {"kind": "ioerr", "write_no": j, "step": None}, outname=ref["outname"])
     rep = fr["report"]
     io = rep.get("io")
     if torn and rep["status"] == "died":
@@ -336,7 +342,7 @@ def _retry_case(ctx, cfg, desc, clock, ref):
 
         d = tempfile.mkdtemp(prefix="c17retry-")
         try:
-            out = os.path.join(d, "out.fits")
+            out = os.path.join(d, ref["outname"])
             os.mkdir(os.path.join(d, "side"))
             cwd = os.getcwd()
             os.chdir(d)
@@ -427,6 +433,7 @@ def _enumerate_cases(seed, c, K_hint=None):
     ch0 = Chooser(seed=derive_seed(seed, "C17", "config", c))
     draw_config(ch0, max_events=40)
     ch0.draw(4 * 365 * 86400, "clock")
+    ch0.draw(len(OUTNAMES), "output_name")
     return ch0.values()
 
 
